@@ -17,6 +17,7 @@ import (
 	"github.com/kardiachain/go-kardia/consensus"
 	"github.com/kardiachain/go-kardia/kai/state/cstate"
 	"github.com/kardiachain/go-kardia/lib/common"
+	"github.com/kardiachain/go-kardia/lib/log"
 	"github.com/kardiachain/go-kardia/types"
 )
 
@@ -31,6 +32,25 @@ type recWAL struct {
 	log   *kit.WriteLog
 	snaps []map[string][]byte // durable contents at each observed fsync
 	on    bool
+}
+
+// pollRotation: the autofile group rotates its head (flush, fsync, close, rename) when a
+// periodic check finds it at its size limit. That check runs on the group's own ticker, whose
+// order relative to the writers the simulator does not decide, so the simulator makes the
+// same check itself at quiescent points (tape-chosen small limit) and calls the group's own
+// RotateFile. The directory right after a rotation - everything durable in wal.NNN, no head
+// file yet - is one more state a crash can leave behind.
+func (w *recWAL) pollRotation(limit int64) bool {
+	if limit <= 0 {
+		return false
+	}
+	g := w.inner.Group()
+	if g.ReadGroupInfo().HeadSize < limit {
+		return false
+	}
+	g.RotateFile()
+	w.snapshot("rotate")
+	return true
 }
 
 func sigTag(msg consensus.WALMessage) string {
@@ -94,7 +114,8 @@ func (w *recWAL) Wait()       { w.inner.Wait() }
 func walDirOf(base string) string { return filepath.Join(base, "cs.wal") }
 
 // openRecWAL creates the real WAL on the node's directory wrapped by the recorder.
-func openRecWAL(base string, log *kit.WriteLog, record bool) (*recWAL, error) {
+func openRecWAL(base string, log *kit.WriteLog, record bool, headLimit int) (*recWAL, error) {
+	_ = headLimit // rotation is driven by the simulator (pollRotation), the group keeps its defaults
 	inner, err := consensus.NewWAL(filepath.Join(walDirOf(base), "wal"))
 	if err != nil {
 		return nil, err
@@ -198,7 +219,7 @@ func (s *Sim) startNodeCrash(id int, record bool) error {
 	if err != nil {
 		return err
 	}
-	w, err := openRecWAL(s.walDirs[id], s.disks[id].Log, record)
+	w, err := openRecWAL(s.walDirs[id], s.disks[id].Log, record, s.cfg.WalHeadLimit)
 	if err != nil {
 		return err
 	}
@@ -278,7 +299,15 @@ func (s *Sim) runCrash() {
 		}
 		return true
 	}
+	s.afterQ = func() {
+		if n := s.nodes[victim]; n != nil && n.WAL != nil {
+			if n.WAL.(*recWAL).pollRotation(int64(s.cfg.WalHeadLimit)) {
+				s.res.Fault("wal-head-rotated")
+			}
+		}
+	}
 	s.loop(goal, time.Duration(c.Heights)*time.Duration(c.TimeoutMs)*time.Millisecond*60)
+	s.afterQ = nil
 	if s.failedNow() || s.res.Inconclusive || !goal() {
 		if !s.failedNow() {
 			s.res.Inconclusive = true
@@ -471,8 +500,22 @@ func (s *Sim) crashPoint(ref *crashRef, k int, mode string) {
 			if mode == "torn" && si+1 < len(ref.snaps) {
 				// part of what was written after the last fsync reached the disk
 				nxt := ref.snaps[si+1]
-				for name, nb := range nxt {
-					ob := snap[name]
+				var names []string
+				for name := range nxt {
+					names = append(names, name)
+				}
+				sort.Strings(names)
+				for _, name := range names {
+					nb := nxt[name]
+					cur := name
+					if _, ok := snap[name]; !ok {
+						// a rotation in between renamed the head: what was appended went to the head
+						cur = "wal"
+					}
+					ob, ok := snap[cur]
+					if !ok {
+						continue
+					}
 					if len(nb) > len(ob) && string(nb[:len(ob)]) == string(ob) {
 						extra := nb[len(ob):]
 						x := 1 + s.tape.Draw(len(extra))
@@ -480,7 +523,7 @@ func (s *Sim) crashPoint(ref *crashRef, k int, mode string) {
 						if s.tape.Chance(1, 3) && x > 0 {
 							t[len(ob)+s.tape.Draw(x)] ^= 0x20 // garbage after power loss
 						}
-						snap[name] = t
+						snap[cur] = t
 						break
 					}
 				}
@@ -552,6 +595,8 @@ func (s *Sim) crashPoint(ref *crashRef, k int, mode string) {
 	}
 	s.nodes = make([]*kit.Node, total)
 	sigBefore := len(s.reg.All())
+	replayErr := ""
+	replayErrH := uint64(0) // the height whose messages were not replayed
 	for id := 0; id < total; id++ {
 		var err error
 		func() {
@@ -560,6 +605,25 @@ func (s *Sim) crashPoint(ref *crashRef, k int, mode string) {
 					err = fmt.Errorf("panic: %v", r)
 				}
 			}()
+			if id == victim {
+				prev := kit.LogSink
+				kit.LogSink = func(lvl log.Lvl, msg string, ctx []interface{}) {
+					if strings.Contains(msg, "catchup replay") {
+						replayErr = "unknown"
+						for i := 0; i+1 < len(ctx); i += 2 {
+							if fmt.Sprint(ctx[i]) == "err" {
+								raw := firstLine(fmt.Sprint(ctx[i+1]))
+								replayErr = sanitizeSig(raw)
+								fmt.Sscanf(raw, "cannot replay height %d", &replayErrH)
+							}
+						}
+					}
+					if prev != nil {
+						prev(lvl, msg, ctx)
+					}
+				}
+				defer func() { kit.LogSink = prev }()
+			}
 			err = s.startNodeCrash(id, false)
 		}()
 		if err != nil {
@@ -598,6 +662,8 @@ func (s *Sim) crashPoint(ref *crashRef, k int, mode string) {
 	if v.LoadedHeight < savedState {
 		where = "node rewound below its saved consensus state: application state of recent blocks was not flushed"
 		s.res.Probe("c05-restart-rewound")
+	} else if replayErr != "" {
+		s.res.Probe("c05-restart-without-log-replay")
 	}
 	for h := uint64(1); h <= head; h++ {
 		b := v.BOper.LoadBlock(h)
@@ -657,6 +723,15 @@ func (s *Sim) crashPoint(ref *crashRef, k int, mode string) {
 		}
 		return true
 	}
+	// a node that forgot what it signed in the interrupted round only shows it when it has to
+	// decide again without the proposal: now and then the restarted node gets the round's
+	// proposal late (delay, not loss)
+	s.holdDst = -1
+	if total > 1 && s.tape.Chance(1, 2) {
+		s.holdDst = victim
+		s.holdUntil = s.now() + time.Duration(c.TimeoutMs*(2+s.tape.Draw(3)))*time.Millisecond
+	}
+	defer func() { s.holdDst = -1 }()
 	s.trace("RESTARTED victim store head %d, state height %d, network max height %d", head, st.LastBlockHeight, startMax)
 	s.loop(goal, time.Duration(20*(c.NVal+4))*time.Duration(c.TimeoutMs)*time.Millisecond*8)
 	s.trace("CONTINUED goal=%v inconclusive=%v failed=%v", goal(), s.res.Inconclusive, s.failedNow())
@@ -682,6 +757,7 @@ func (s *Sim) crashPoint(ref *crashRef, k int, mode string) {
 			}
 		}
 	}
+	var firstKnown *[2]string
 	for _, r := range s.reg.All()[sigBefore:] {
 		if r.Signer != v.Addr {
 			continue
@@ -696,12 +772,30 @@ func (s *Sim) crashPoint(ref *crashRef, k int, mode string) {
 				if strings.HasPrefix(where, "node rewound") {
 					what = "a vote or proposal"
 				}
-				s.res.Violate("C05", "conflicting-signature", "after restart the validator signed "+what+" that conflicts with one it had published before the crash ["+where+"]",
-					fmt.Sprintf("k=%d h%d r%d %s: before %s, after %s", k, r.Height, r.Round, r.Kind, short(p.BlockHash), short(r.BlockHash)))
+				whereC := where
+				if replayErr != "" && replayErrH == r.Height && !strings.HasPrefix(where, "node rewound") {
+					// the node started without replaying its consensus log of this very height:
+					// whatever it had signed there is forgotten
+					whereC += "; the consensus log of that height was not replayed at start-up: " + replayErr
+				}
+				sig := "after restart the validator signed " + what + " that conflicts with one it had published before the crash [" + whereC + "]"
+				det := fmt.Sprintf("k=%d h%d r%d %s: before %s, after %s", k, r.Height, r.Round, r.Kind, short(p.BlockHash), short(r.BlockHash))
+				// a listed known finding must not hide a different conflict later in the same restart
+				if s.opt.IsKnown != nil && s.opt.IsKnown(coreViolation("C05", "conflicting-signature", sig, det)) {
+					if firstKnown == nil {
+						firstKnown = &[2]string{sig, det}
+					}
+					continue
+				}
+				s.res.Violate("C05", "conflicting-signature", sig, det)
 				return
 			}
 			s.res.Probe("c05-resigned-same-content")
 		}
+	}
+	if firstKnown != nil {
+		s.res.Violate("C05", "conflicting-signature", firstKnown[0], firstKnown[1])
+		return
 	}
 	// oracle 5: liveness
 	if !goal() && !s.res.Inconclusive {
